@@ -107,6 +107,36 @@ def writeSession (s : Stream) (closefd compatible bodyRaises : Bool) : Stream :=
     let s := (s.call .seek).call .write
     if closefd then s.close else s
 
+/-- the same session for a LAS 1.4 header, with `write_evlrs` (non-empty list) called in the body: the writer is marked
+    done by it; `close()` still rewrites the header and honours closefd -/
+def writeSessionEvlrs (s : Stream) (closefd pointsWritten bodyRaises : Bool) : Stream :=
+  let s := s.call .write                                   -- initial header
+  let s := if pointsWritten then s.call .write else s      -- points
+  let s := (s.call .tell).call .write                      -- write_evlrs: position noted, records written
+  let _ := bodyRaises                                      -- an exception after that point changes nothing: __exit__ closes
+  let s := (s.call .seek).call .write
+  if closefd then s.close else s
+
+/-- where reading fails although the header was accepted -/
+inductive LateFailure
+  | none
+  | source     -- the point source cannot be created (points flagged compressed, nothing to decompress them with)
+  | read       -- the source raises inside the point block
+deriving DecidableEq, Repr
+
+/-- `lib.read_las`: the reader is used in a with-block, so it is closed on every exit; `open_las` has already closed
+    the stream (iff closefd) when opening fails -/
+def readLas (s : Stream) (f : FileInfo) (closefd : Bool) (late : LateFailure) : Stream × Failure :=
+  match openRead s f closefd true with
+  | .error s' => (s', .laspy)
+  | .ok r =>
+    if f.nPoints = 0 then (closeReader (readAll r), .none)
+    else match late with
+      | .none => (closeReader (readAll r), .none)
+      | .source => (closeReader r, .laspy)
+      | .read => (closeReader { r with stream := r.stream.call (if r.stream.hasReadinto then .readinto else .read),
+                                        sourceCreated := true }, .other)
+
 /-- `LasData.write(stream)` uses a writer with closefd=False -/
 def lasDataWrite (s : Stream) : Stream := writeSession s false true false
 
